@@ -296,4 +296,27 @@ CHECKS["C11"] = {
     "level_note": "Trusted: the reference fold in harness/c11_reduce.cpp.",
 }
 
+CHECKS["C12"] = {
+    "title": "switch_ output follows only the selected branch, which starts fresh",
+    "level": "model_checking",
+    "technique": "exhaustive enumeration of key/input histories x branch tables x default/reload options on the real switch_ node; differential "
+                 "oracle: every branch life is re-run ALONE on the real engine and the switch output sampled every cycle must equal it",
+    "design_ref": "DESIGN.md 2/C12",
+    "parts": [{"name": "switch", "exe": "c12_switch", "sources": ["c12_switch.cpp"], "shards": 16}],
+    "rule": "per cycle: key tick in {-,1,2,8,9} (8 and 9 match no case) x input tick or not, all 5^T x 2^T histories; tables: {1: stateful counter, "
+            "2: doubler, default: counter after doubler}, {1: self-scheduling debounce (+2), 2: counter}, {1: key-consuming, 2: counter}, TSS-output "
+            "table {1: accumulate into the set, 2: single-element set}; each with/without default branch and with/without reload(). Oracle: lives "
+            "start on a key CHANGE (any key tick under reload; two different unmatched keys are two lives of the default branch); a life's branch "
+            "is wired alone and fed 'held input sampled at the switch cycle, then the input ticks' until the next switch; in every cycle the "
+            "switch output (valid, value, ticked) equals the current life's alone run (nothing of an earlier branch is visible, pending timers of a "
+            "stopped branch never fire, same key without reload keeps the instance, returning to a key gives fresh state); an unmatched key without "
+            "default makes run() throw. states = distinct output traces; transitions = output ticks; non-trivial = >= 3 branch lives.",
+    "bounds": {"quick": "T=5 (3125 key histories x 32 input histories x 14 configurations)", "thorough": "T=6"},
+    "min_counters": {"quick": {"nontrivial": 100000, "states": 3000, "switch.cases_sdr": 50000}},
+    "assumptions": COMMON_ASSUMPTIONS + ["A collection output reset to the EMPTY collection at a switch counts as 'no output of the new branch yet'.",
+                                           "Source-style branches, several time-series arguments and REF-shaped outputs (C13) are not explored."],
+    "level_text": "Every execution of the bounded history space is validated cycle by cycle against executions of the selected branch alone on the real engine.",
+    "level_note": "Trusted: the life segmentation rule in harness/c12_switch.cpp.",
+}
+
 NOT_APPLICABLE = {}
